@@ -139,3 +139,36 @@ theorem reach_inv {s : PState} (h : Reach Cfg.fixed s) : Inv s := by
   | step s s' _ hs ih => exact inv_step ih hs
 
 end Hms.Conc
+
+namespace Hms.Conc
+
+theorem waitRun_reach {cfg : Cfg} (k : Nat) : ∀ (s : PState), Reach cfg s → Reach cfg (waitRun cfg k s) := by
+  induction k with
+  | zero => intro s h; exact h
+  | succ k ih =>
+    intro s h
+    cases hs : waitStep cfg s with
+    | none => simpa [waitRun, hs] using h
+    | some s' =>
+      simp only [waitRun, hs]
+      exact ih s' (.step s s' h (.wait s s' hs))
+
+/-- The `cancelled` flag is never reset. -/
+theorem cancelled_mono {cfg : Cfg} {s s' : PState} (h : Step cfg s s') (hc : s.cancelled = true) :
+    s'.cancelled = true := by
+  cases h with
+  | hostSpawn _ => exact hc
+  | coreSpawn _ _ _ => exact hc
+  | hostCancel => rfl
+  | coreFinish _ _ _ _ => exact hc
+  | gRLock _ _ _ => exact hc
+  | gRUnlock _ _ => exact hc
+  | gLock _ _ _ _ => exact hc
+  | gWrite _ _ => exact hc
+  | gUnlock _ _ => exact hc
+  | waitStart _ => exact hc
+  | wait =>
+    rename_i hw
+    cases waitStep_cases hw <;> (rename_i e; subst e; first | exact hc | rfl)
+
+end Hms.Conc
